@@ -21,3 +21,7 @@ open ZnVerif.Properties.C14
 #print axioms slice_is_characters
 #print axioms split_preserves_characters
 #print axioms split_join
+#print axioms atoiRewrite_encode
+#print axioms history_refines_spec
+#print axioms history_self_consistent
+#print axioms history_observations_consistent
